@@ -212,6 +212,9 @@ def value_class(v):
     return v
 
 
+STATS = {"documents_read": 0, "lines_not_understood": 0, "documents_not_readable": 0}
+
+
 class Evidence(object):
     """Order-insensitive views of one document."""
 
@@ -219,6 +222,10 @@ class Evidence(object):
         self.text = text
         self.doc = parse(text)
         d = self.doc
+        STATS["documents_read"] += 1
+        STATS["lines_not_understood"] += len(d.unparsed)
+        if not d.ok:
+            STATS["documents_not_readable"] += 1
         self.counts = {}
         self.stems = {}
         self.keys = set()
